@@ -222,6 +222,14 @@ def sample(ctx, budget=1.0, hint=None, broken=None):
             paths = [_rand_path(spt, r) for _ in range(n)]
             use_attr = r.random() < 0.7
             attrs = [{k: r.choice(vals) for k in r.sample(keys, r.randint(1, 4))} for _ in range(n)] if use_attr else None
+            if attrs:
+                # the same presentation attributes under their real (hyphenated) names, as read from another SVG file
+                for a_ in attrs:
+                    for k_ in ('stroke_width', 'stroke_linecap'):
+                        if k_ in a_ and r.random() < 0.5:
+                            a_[k_.replace('_', '-')] = a_.pop(k_)
+                    if r.random() < 0.2 and 'stroke_width' not in a_:
+                        a_['stroke-width'] = r.choice(['3', '0.25', '7px'])
             svg_attr = {'width': '100px', 'height': '50px', 'viewBox': '0 0 10 20', 'id': r.choice(['root', 'r&d'])} if r.random() < 0.5 else None
             fn = os.path.join(tmp, r.choice(['w%d.svg', 'with space %d.svg', 'w%d.xml']) % it)
             inp = {'paths': [repr(p) for p in paths], 'attributes': attrs, 'svg_attributes': svg_attr, 'filename': os.path.basename(fn)}
